@@ -76,6 +76,8 @@ class Conv:
             return [17, self.n(e[1])]
         if k == 'accessor':
             return [18, self.n(e[2]), self.e(e[1])]
+        if k == 'keyprop':
+            return [19, self.n(e[1])]
         if k == 'numberof':
             return [16, 3, S.NUM_OF.index(e[1])]
         if k == 'special':
